@@ -26,6 +26,9 @@ def _broker_run(prop, tier):
         "events": fam["events"],
         "traces_validated_against_impl": max(0, fam["traces"] - len(unvalidated)),
         "divergent_traces": fam.get("divergent_traces", 0),
+        "tlc_generated_traces": fam.get("tlc_generated_traces", 0),
+        "tlc_generated_note": "behaviours of spec/Broker_SIM.tla sampled by `tlc -simulate` (%s distinct), translated to symbolic operations and replayed on the real MemBrokerService; "
+                              "judged by the same L1 monitors and L2 refinement as the generated histories" % fam.get("tlc_distinct_behaviours", 0),
         "divergences": fam.get("divergences", [])[:10],
         "traces_with_monitor_failure": len(bad_traces),
         "exhaustive": False,
